@@ -587,6 +587,16 @@ def c08_extra(rep, rnd, first_id):
             data = bytes(rnd.randrange(256) for _ in range(start)) + bytes([2]) + bytes(rnd.randrange(1, 256) for _ in range(60))
             for compiled in (True, False):
                 out += codec.cut_and_fault_records(first_id + len(out), scn, data, start, compiled, rnd, max_cuts=80, max_faults=4)
+    # a length field holding an absurd number (corrupted input): the input ends long before - EOFError like for any other
+    # premature end, whatever the stream object does when asked for 2^63 bytes (finding F67)
+    for elem in [A.t_char(), A.t_int("uint32"), A.t_wchar(), A.t_int("uint24"), A.t_float("double")]:
+        for nbytes in (b"\xff" * 8, bytes(7) + b"\x80", b"\x00\x00\x00\x00\x01\x00\x00\x00", bytes(3) + b"\x01" + bytes(4)):
+            t = A.t_struct("HUGE", [A.field("n", A.t_int("uint64")), A.field("d", A.t_arr(elem, A.L_expr({"k": "id", "name": "n"}))), A.field("t", u8)])
+            mode = {"endian": "<", "align": False, "ptr": 8}
+            scn = {"type": t, "mode": mode, "consts": {}, "defs": A.render(t, {})}
+            data = nbytes + bytes(rnd.randrange(1, 256) for _ in range(rnd.choice([0, 4, 13])))
+            out.append(codec.parse_record(first_id + len(out), scn, data, 0, rnd.random() < 0.5, both=True))
+            out[-1]["tag"] = "cut-huge-length"
     # null-terminated arrays: a cut inside the terminator, or inside an element one of whose bytes is zero, is still a cut
     # (seed S124: a terminator test that takes any all-zero remainder for the terminator)
     for elem in ([A.t_wchar(), A.t_int("uint16"), A.t_int("uint24"), A.t_int("uint32")] if rep.tier == "thorough" else [A.t_wchar(), rnd.choice([A.t_int("uint16"), A.t_int("uint24")])]):
